@@ -11,6 +11,7 @@
 typedef struct vstr { char *p; int len; } vstr;
 #define VSTR_NPOS (~(size_t)0)
 static int verif_thrown, verif_thrown_other;
+static int verif_ghost_int, verif_ghost_int2;
 static size_t verif_ghost_idx, verif_ghost_idx2, verif_ghost_idx3, verif_ghost_idx4;
 static inline int verif_strlen(const char *s) { return (int)std::strlen(s); }
 static inline int verif_toupper(int c) { return (c >= 'a' && c <= 'z') ? c - 'a' + 'A' : c; }
